@@ -1,5 +1,8 @@
 import Pyrtma.Proofs.ManagerSimAdj
 import Pyrtma.Proofs.ManagerSimLog
+import Pyrtma.Proofs.ManagerSimMult
+import Pyrtma.Proofs.ManagerSpecOrd
+import Pyrtma.Proofs.ManagerCount
 /-!
 # Refinement of the history-based Spec by the manager model M1 — part 6: rounds and histories
 
@@ -1201,13 +1204,25 @@ theorem rounds_ok : ∀ (rs : List Round) (a : A) (s : State), Inv cfg a s → R
     refine ⟨inv2, fun p hp hn => herr2 p hp (herr1 p hp hn), ?_⟩
     rw [← hfl2, hevs, List.append_assoc]
 
+omit ok hfuel hperm hmt in
+theorem adjacent_of_sorted : ∀ (l : List Nat), l.Pairwise (· ≤ ·) → (l.zip (l.drop 1)).all (fun p => decide (p.1 ≤ p.2)) = true
+  | [], _ => rfl
+  | [_], _ => rfl
+  | a :: b :: rest, h => by
+    have h1 := List.pairwise_cons.mp h
+    have ih := adjacent_of_sorted (b :: rest) h1.2
+    simp only [List.drop_succ_cons, List.drop_zero, List.zip_cons_cons, List.all_cons, Bool.and_eq_true, decide_eq_true_eq]
+    refine ⟨h1.1 b (by simp), ?_⟩
+    simpa using ih
+
 /-- **The model meets the Spec, for the proved properties.**  Run the model on any well-formed history, hand the Spec
 the history and the events the model wrote, round by round: the Spec's verdict contains no entry for a property in
-`proven` — and its
-abstract state at the end simulates the model's final state. -/
+`proven` (for C05: on histories whose frames carry their serial numbers in processing order, `IncRounds` — the serial
+number is the label by which the Spec recognises the copies of a frame) — and its abstract state at the end simulates
+the model's final state. -/
 theorem model_meets_spec_proven (rs : List Round) (hwf : RoundsWF rs) :
-    ∀ p ∈ proven, Spec.NoErr p (Spec.runSpec cfg rs (modelObs cfg rs) none) := by
-  intro p hp
+    ∀ p ∈ proven, (p = "C05" → IncRounds 0 rs) → Spec.NoErr p (Spec.runSpec cfg rs (modelObs cfg rs) none) := by
+  intro p hp hinc
   have hord : OrdOK cfg := ordOK_of_perm hperm
   have hallO : OrdAll cfg := OrdAll_of_perm hperm
   unfold Spec.runSpec
@@ -1229,10 +1244,34 @@ theorem model_meets_spec_proven (rs : List Round) (hwf : RoundsWF rs) :
       (fun e => !(e == .wfail u || e == .close u))).drop 1)).any (·.1 == u) = false := by
     intro u; rw [hall]
     exact nothing_after_fail (run_J cfg rs) (run_adj ok hallO hfuel rs) u
-  refine (Spec.checkNoNotice_ext cfg _ _).noErr (fun h => hnot ?_)
-    ((Spec.checkC05_c37 _ _ _ hbroken hafter).noErr (fun h => hnot ?_) h1)
+  refine (Spec.checkNoNotice_ext cfg _ _).noErr (fun h => hnot ?_) ?_
   · simp only [List.mem_singleton] at h; subst h; simp [others]
-  · simp only [List.mem_singleton] at h; subst h; simp [others]
+  by_cases h5 : p = "C05"
+  · -- every clause of `checkC05`: counts 1, 2, 3, …; per-sender order; same relative order at any two receivers
+    have hi := hinc h5
+    have hdk : ∀ u, Spec.dataKs (run cfg rs).out u = dataKs (run cfg rs).out u := fun _ => rfl
+    rw [Spec.checkC05_ok _ _ _ hbroken hafter]
+    · exact h1
+    · intro u
+      rw [hall]
+      obtain ⟨n, hn, _⟩ := seq_gap_free ok hfuel rs u
+      have he : Spec.countsOf (run cfg rs).out u = countsOf (run cfg rs).out u := rfl
+      rw [he, hn]
+      unfold Spec.isIota iota
+      simp
+    · intro u sd
+      rw [hall, hdk]
+      exact adjacent_of_sorted _ (((run_ordered cfg rs hi) u).1.filter _)
+    · intro u v
+      rw [hall, hdk, hdk]
+      refine Spec.relorder_of_sorted _ _ ((run_ordered cfg rs hi) u).1 ((run_ordered cfg rs hi) v).1 (fun k hku hkv => ?_)
+      obtain ⟨c, hc⟩ := run_mult ok hfuel hperm rs hi k
+      have h1' := List.count_pos_iff.mpr hku
+      have h2' := List.count_pos_iff.mpr hkv
+      rcases hc u with x | x <;> rcases hc v with y | y <;> omega
+  · refine (Spec.checkC05_c37 _ _ _ hbroken hafter).noErr (fun h => ?_) h1
+    simp only [List.mem_singleton] at h
+    exact h5 h
 
 end hist
 
